@@ -5,7 +5,7 @@ import copy, hashlib, json, os, pickle, random, subprocess, sys
 from . import paths, refsem
 from .pipeline import Builder, observe
 from .sym import SymWorld
-from .codec import canon, exc_name
+from .codec import canon, exc_name, val_to_json
 from .gen_pipe import gen_stack, POOL
 from .suite_bag import NAMES
 
@@ -245,3 +245,42 @@ def run_shard(args):
     rewrites += r2
     problems += p2
     return {'cases': cases, 'rewrites': rewrites}, problems
+
+
+def run_two_storages(seed):
+    """a value written to a disk cache by one run is found by the next run although a hash-transparent layer was inserted:
+    another CacheToDisk layer, on a storage configured with ANOTHER digest algorithm, downstream of the first one (C07: the key
+    of the first cache is unchanged; nothing upstream is executed again)"""
+    import os, shutil, tempfile
+    from . import paths
+    from .pipeline import Builder
+    from .sym import SymWorld
+    rng = random.Random(seed)
+    os.makedirs(paths.SCRATCH, exist_ok=True)
+    scratch = tempfile.mkdtemp(prefix='cv-two-', dir=paths.SCRATCH)
+    problems = []
+    try:
+        roots = [os.path.join(scratch, 'a'), os.path.join(scratch, 'b')]
+        algos = rng.sample(['sha256', 'blake2s', 'sha512', 'blake2b'], 2)
+        src = {'k': 'source', 'cls': 'TW', 'ids': ['i1', 'i2', 'i3'], 'fields': {'x': {'args': ['i']}}, 'params': {}, 'cargs': {}, 'defaults': {}}
+        t = {'k': 'transform', 'cls': 'TWT', 'fields': {'y': {'args': ['x']}}, 'params': {}, 'cargs': {}, 'defaults': {}, 'inherit': True}
+        inner = {'k': 'disk', 'names': ['y'], 'root': 0, 'algo': algos[0]}
+        outer = {'k': 'disk', 'names': ['y'], 'root': 1, 'algo': algos[1]}
+        keys = rng.sample(['i1', 'i2', 'i3'], 2)
+        world = SymWorld()
+        first = Builder(world, roots=roots).layer({'k': 'chain', 'flavour': 'chain', 'layers': [src, t, inner]})
+        vals = [canon(val_to_json(first.y(k), world)) for k in keys]
+        second = Builder(world, roots=roots).layer({'k': 'chain', 'flavour': 'chain', 'layers': [src, t, inner, outer]})
+        mark = world.mark()
+        vals2 = [canon(val_to_json(second.y(k), world)) for k in keys]
+        again = sorted({c[0] for c in world.since(mark)})
+        if vals2 != vals:
+            problems.append({'msg': f'two disk caches ({algos}): values differ after inserting the second cache layer'})
+        elif again:
+            problems.append({'algos': algos, 'msg': f'a second CacheToDisk layer (digest {algos[1]}) inserted downstream of the first ({algos[0]}): the values the first '
+                                                   f'run wrote were not found, {again} were executed again (the key of the first cache changed)'})
+    except Exception as e:
+        problems.append({'msg': 'two-storages scenario raised ' + exc_name(e) + ': ' + str(e)[:200]})
+    finally:
+        shutil.rmtree(scratch, ignore_errors=True)
+    return problems
